@@ -191,10 +191,58 @@ def check_instance(x, rebuild, selector: int, label: str) -> list[tuple[str, str
     return out
 
 
+def alias_twin(cd, x):
+    """x with every value of a field declared with one of kio's custom id types (kio.schema.types: TopicName, GroupId,
+    ...) wrapped in that type - what typed user code passes in, whereas the decoder hands out plain values.
+    -> (twin, number of wrapped values)"""
+    n = 0
+
+    def conv(c, v):
+        nonlocal n
+        changes = {}
+        for f in c.fields:
+            cur = getattr(v, f.name)
+            if cur is None:
+                continue
+            if f.kind == "struct":
+                new = tuple(conv(f.struct, i) for i in cur) if f.array else conv(f.struct, cur)
+                if f.array and all(a is b for a, b in zip(new, cur)):
+                    continue
+                if not f.array and new is cur:
+                    continue
+                changes[f.name] = new
+            elif getattr(f.pytype, "__module__", "") == "kio.schema.types":
+                try:
+                    new = tuple(f.pytype(i) if i is not None else None for i in cur) if f.array else f.pytype(cur)
+                except Exception:
+                    continue
+                if (f.array and any(type(a) is not type(b) for a, b in zip(new, cur))) or (not f.array and type(new) is not type(cur)):
+                    n += 1
+                    changes[f.name] = new
+        return dataclasses.replace(v, **changes) if changes else v
+
+    return conv(cd, x), n
+
+
 def check(cd, tree, extra):
     selector = extra
     x = to_entity(cd, tree)
     out = check_instance(x, lambda: to_entity(cd, tree), selector, "constructed")
+    twin, wrapped = alias_twin(cd, x)
+    if wrapped:
+        note("alias_twins")
+        if twin == x or x == twin:
+            try:
+                if hash(twin) != hash(x):
+                    out.append(("equal-but-hash-differs:custom-id-type", f"{cd.path}: the instance built with kio.schema.types values equals the one built "
+                                f"with plain values but hashes differently: {twin!r:.200}"))
+                if twin not in {x} or x not in {twin}:
+                    out.append(("equal-but-not-found-in-set:custom-id-type", f"{cd.path}: {twin!r:.200}"))
+            except TypeError as e:
+                out.append(("unhashable", f"{cd.path}: hash() raised {e!r} (alias twin)"))
+        else:
+            out.append(("alias-twin-not-equal", f"{cd.path}: an instance built with kio.schema.types values differs from the one built with the same plain "
+                        f"values: {twin!r:.200} vs {x!r:.200}"))
     # what the library itself constructs
     try:
         b = K.encode(cd.cls, x)
